@@ -59,7 +59,7 @@ class model(base.model):
                 vhalf = (pL[i][c]+pR[i][c])/2
                 if vhalf > 0:
                     nflux[i][c] = pL[i][c]**2/2
-                elif vhalf < 0:
+                else: # vhalf <= 0 (when vhalf == 0, pL = -pR and both states give the same flux)
                     nflux[i][c] = pR[i][c]**2/2
         return nflux
 
